@@ -218,6 +218,10 @@ def stratum_obligations(case):
                 #      #bindings over main with a delta tuple == #bindings(main) - #bindings(old), for heads not in main
                 cnt = []
                 for n in scc:
+                    if refprog.rels[n].arity == 0:
+                        # propositions: the translator stops at the first derivation (BREAK / ISEMPTY(@new) guard), which is
+                        # sound; only completeness (i)-(iii) is demanded for them
+                        continue
                     for t, _ in main[n].items():
                         ram_n = z3.Sum([z3.If(sym.g_z3(g_and(g, main[n].tuple_eq(et, t))), 1, 0)
                                         for (rn, et, g) in ex.insert_events if rn == "@new_" + n] + [z3.IntVal(0)])
